@@ -47,7 +47,7 @@ func configs(tier string) []*config {
 	if tier == "thorough" {
 		out := []*config{
 			mk(4, 1, 1, 3, false), // tip-following, one reorg, <=3 deviations
-			mk(3, 1, 2, 2, false), // two reorgs, <=2 deviations
+			mk(3, 1, 2, 1, false), // two reorgs, <=1 deviation
 			mk(4, 1, 2, 1, false), // two reorgs on a longer chain, <=1 deviation
 			mk(6, 2, 1, 2, false), // catch-up with 2 fetchers, one reorg, <=2 deviations
 			mk(6, 3, 1, 1, true),  // catch-up with 3 fetchers, new state backend
@@ -62,7 +62,7 @@ func configs(tier string) []*config {
 		mk(4, 1, 1, 1, false), // tip-following, one reorg, <=1 deviation
 		mk(3, 1, 1, 2, false), // one reorg, <=2 deviations
 		mk(3, 1, 2, 0, false), // two reorgs, default answers, every placement of both
-		mk(6, 2, 1, 0, true),  // catch-up with 2 fetchers, new state backend
+		mk(6, 2, 1, 1, true),  // catch-up with 2 fetchers, one reorg, <=1 deviation, new state backend
 		mk(5, 2, 0, 2, false), // catch-up with 2 fetchers, no reorg, <=2 deviations (out-of-order answers, faults)
 	}
 }
